@@ -4,6 +4,8 @@ import Frugal.Proofs.ReaderProps
 import Frugal.Proofs.SecondHop
 import Frugal.Proofs.HoldersRead
 import Frugal.Proofs.ReadTyped
+import Frugal.Proofs.ReadUnk
+import Frugal.Props.Inst.F_valid_depth
 import Frugal.Proofs.UnknownIdxLemmas
 import Frugal.Proofs.DecodeRefine
 import Frugal.Props.Inst.Params
@@ -114,6 +116,41 @@ theorem intermediary_loses_nothing (S : Schema) (hS : S.ok = true) (hside : S.rt
   unfold appendM
   rw [appendAny_eq Instances.params_valid S hS _ (.strct sid) rfl hty]
   exact refEnc_eq_serH S hS _ (.strct sid) rfl rfl hty (fitH_holdersOK _ hfit)
+
+/-- **… and what it forwards reads back as what it held** (the second hop, at every nesting level): for
+    the value `w` an intermediary decoded (hypotheses of `intermediary_loses_nothing`, the destination's
+    own holders skippable unknown fields, e.g. a fresh struct), re-encoding `w` and decoding the bytes
+    with the same schema into any typed destination succeeds, consumes exactly the encoded length and
+    gives `normTopH w dest`: the recognised fields in normal form and, in every struct of `w` at every
+    nesting level, the retained bytes **byte for byte**.  The holders of a decoded value meet the
+    hypotheses of `C01.roundtrip_with_nested_holders` by themselves (`fitH`: HoldersRead, `unkOK`:
+    ReadUnk); what remains is C01's own: nesting ≤ 511 and no written nil pointer to a struct with
+    required fields. -/
+theorem forwarded_value_reads_back (S : Schema) (hS : S.ok = true) (hside : S.rtSide)
+    (hdf : ∀ sid, ∀ f ∈ (S.get sid).fields, ∀ d, f.dflt = some d → fitH d = true)
+    (hdu : ∀ sid, ∀ f ∈ (S.get sid).fields, ∀ d, f.dflt = some d → unkOK Generated.params S f.ty d = true)
+    (sid : Nat) (fs : List (Nat × TVal)) (trailing : Bytes) (dest w : Val) (n : Nat)
+    (hw : wfFields fs = true)
+    (hdt : hasTy S (.strct sid) dest = true) (hdh : fitH dest = true)
+    (hdk : unkOK Generated.params S (.strct sid) dest = true)
+    (h : decodeM Generated.params S sid (ser (.strct fs) ++ trailing) dest = .ok (w, n))
+    (hr : rtOK S (.strct sid) w = true) (hd : depth (toWireH S (.strct sid) w) ≤ 511)
+    (ds : List Val) (h' : Bytes) (hdest : hasTy S (.strct sid) (.st ds h') = true) :
+    decodeM Generated.params S sid (appendM Generated.params S sid w) (.st ds h') =
+      .ok (normTopH S sid w (.st ds h'), (appendM Generated.params S sid w).length) := by
+  have hfit := decoded_holders_are_field_lists S hS hdf sid fs trailing dest w n hw hdh h
+  rw [decodeM_refines Instances.params_valid S hS sid fs trailing _ hw] at h
+  obtain ⟨w0, h0, e⟩ := mapv_ok_inv _ _ _ h
+  simp only [Prod.mk.injEq] at e
+  obtain ⟨rfl, _⟩ := e
+  have hty := readMessage_typed Generated.params S hS hside sid fs trailing.length dest _ hw hdt h0
+  have hunk := readMessage_unkOK Generated.params S hdu sid fs trailing.length dest _ hw hdk h0
+  cases w with
+  | st xs hh =>
+    apply roundtrip_holders Instances.params_valid S hS hside sid xs ds hh h' hty hdest hfit hunk hr
+    have : Generated.params.maxDepth = 1023 := rfl
+    omega
+  | _ => hasTy_absurd hty
 
 /-- the recognised fields are decoded as if the unknown ones were not there: whenever a message is
     read successfully, the same message without its unrecognised fields — wherever it sits in a
